@@ -366,7 +366,7 @@ class Engine(object):
                         return ('off', b)
                 return ('addr', p)
             if op in ('++', '--'):
-                self.assign(e.c[0], UNK, env)
+                self.assign(e.c[0], UNK, env, node=e)
                 return UNK
             v = self.eval(e.c[0], env)
             if op == '!':
@@ -817,7 +817,7 @@ class Engine(object):
                 continue
             rhs = anode.c[1] if (anode is not None and anode.k == 'Assign') else None
             ev = {'kind': 'store', 'target': form % d, 'base': d, 'node': self.cur_node.id,
-                  'line': lv.line, 'inloop': self.cur_node.loop > 0, 'op': anode.a['op'] if anode is not None and anode.k == 'Assign' else '++',
+                  'line': lv.line, 'inloop': self.cur_node.loop > 0, 'op': anode.a['op'] if anode is not None and anode.k in ('Assign', 'Unary') else '++',
                   'value': v, 'lv': lv, 'idx': idx, 'rhs': rhs,
                   'idx_reads': self.reads_of(idx, env) if idx is not None else set(),
                   'rhs_reads': self.reads_of(rhs, env) if rhs is not None else set(),
